@@ -1639,7 +1639,7 @@ package ast
 //@   requires e != nil && fun != nil
 //@   nopanic
 //@   modifies Constant.Value
-//@   ensures[C05] value: e.Value.kind == 6
+//@   ensures[C05] value: e.Value.kind == 6 && rv_int(e.Value) == fun.Integer
 //@ func (e *Constant) AcceptStringLiteral(fun) ()
 //@   serves C17 C20 C07 C05
 //@   requires e != nil && fun != nil
